@@ -4,7 +4,7 @@ import re
 
 from ..core import AnalysisError, norm
 from ..sim import check_reach
-from .common import (check_zero_is_a_value, effects, paths_of, check_writers, check_callers, arg_by_name, named_call_sites)
+from .common import (dtext, nonempty_atom, check_zero_is_a_value, effects, paths_of, check_writers, check_callers, arg_by_name, named_call_sites)
 
 OB = 'core.wl.object.ObjectBase'
 MSGC = 'core.wl.message.Message'
@@ -91,6 +91,9 @@ def check_delete_id(ctx, rule2, rule3):
             return ('has_args', False)
         if t in ('len(self.args)', 'self.args'):
             return ('has_args', True)
+        ne = nonempty_atom(t, 'self.args')
+        if ne is not None:
+            return ('has_args', ne)
         return None
     is_destroy = lambda e: e.kind == 'call' and e.ftext and e.ftext.endswith('.destroy')
     probs = check_reach(mpaths, is_destroy, m_del, lambda F: F['display'] and F['delete_id'] and F['has_args'],
@@ -199,7 +202,7 @@ def run(ctx):
             continue
         ns += 1
         d = [v for a, v in p.decisions if a.text in ('self.destroyed_obj',)] + [not v for a, v in p.decisions if a.text == 'self.destroyed_obj is None']
-        t = norm(p.outcome[1])
+        t = dtext(p.outcome[1])
         has = '.destroyed' in t and 'str(self.destroyed_obj)' in t
         if d:
             ctx.check(has == d[0], 'C03.3', '__str__:annotation-iff-set:%s' % d[0], f_str.loc(),
